@@ -85,7 +85,9 @@ def one(spec, R, batch, stats, considered_mode):
         # whole programs built by the weight-aware machines (stack mapping, progressively-terminal creation): which
         # classes occur in them.  Only where every class-typed field is of an ABSTRACT type, so that every class in a
         # program got there through a weighted choice.
-        abstract_names = {c["name"] for c in spec["classes"] if c["abstract"]}
+        # ... ROOT abstract types only: a field declared with a nested abstract type reaches that type's productions without
+        # passing the (possibly zero) weight the nested type carries as a production of its own parent
+        abstract_names = {c["name"] for c in spec["classes"] if c["abstract"] and not c["parent"]}
 
         def syms(f):
             if f[0] == "sym":
